@@ -88,6 +88,14 @@ def run(facts, tr, rep):
     for W in rl.windows:
         rep.saw(W)
         _check_window(facts, tr, rep, rl, W)
+    # STALE: a value computed from the window's fields is not used after those fields were updated on the way (the wait
+    # computed from the window start of the *previous* period, after the refresh moved it)
+    nst = 0
+    for W0 in rl.windows:
+        Wf_ = facts.inl.bodies.get(W0.def_) or W0
+        nst += check_stale_reads(facts.inl, tr.inl, rep, "C02.STALE", Wf_, rl.self_adt(W0))
+    rep.ob("C02.STALE", "%s|window-states" % CRATE, nst == 0, "-",
+           "no window state uses a value derived from a field after overwriting that field" if nst == 0 else "%d stale use(s)" % nst)
     # NONZERO-WAIT (also judged by C15): a wait answered without taking a permit is not produced by a whole-unit
     # conversion, which would turn a sub-unit wait into Ok(ZERO) = "permit taken".  On the inlined view of each window
     # state, so a shared "wait or reject" helper is covered.
